@@ -38,6 +38,7 @@ Section Sim.
     | ESeq _ es | EAlt _ es => (fix all (l : list expr) := match l with [] => True | x :: l' => wf_e x /\ all l' end) es
     | EStar _ e' | EPlus _ e' | EOpt _ e' | EAnd _ e' | ENot _ e' | ELab _ _ e' | EAct _ _ e' => wf_e e'
     | ERec _ e' rc _ => wf_e e' /\ wf_e rc /\ rc_ok rc
+    | EStC _ _ => has_state (cT c) = true       (* the builder sets GlobalState when a state block exists *)
     | _ => True
     end.
 
@@ -61,6 +62,18 @@ Section Sim.
   Definition env_ctxfree : Prop :=
     (forall id x y, ctx_eqv KAnd x y -> ce_pred (cE c) id x = ce_pred (cE c) id y) /\
     (forall id x y, ctx_eqv KState x y -> ce_state (cE c) id x = ce_state (cE c) id y).
+
+  (* blocks that never change the state store (in a template without a store the Go
+     compiler enforces this: the field does not exist) *)
+  Definition out_st_same {A} (o : cbout A) (x : ctx) : Prop :=
+    match o with CbRet _ _ st' _ | CbPanic _ st' _ => st' = c_state x end.
+
+  Definition env_state_free : Prop :=
+    (forall id x, out_st_same (ce_act (cE c) id x) x) /\
+    (forall id x, out_st_same (ce_pred (cE c) id x) x) /\
+    (forall id x, out_st_same (ce_state (cE c) id x) x).
+
+  Definition state_ok : Prop := has_state (cT c) = true \/ (has_state (cT c) = false /\ env_state_free).
 
   Definition stale_ok : Prop := q_stale_ctx (cQ c) = false \/ env_ctxfree.
 
